@@ -61,6 +61,9 @@ func drawProbe(g *gen.G) (probe, bool) {
 		a := make([]string, n)
 		for i := range a {
 			a[i] = fmt.Sprint(g.T.Draw(6))
+			if g.T.Draw(8) == 0 { // an integral float: placements hold the same-valued int literal
+				a[i] += ".0"
+			}
 		}
 		return strings.Join(a, ", ")
 	}
